@@ -9,9 +9,14 @@ import (
 	"github.com/hashicorp/nodeenrollment/zzverif/vfs"
 )
 
-var VfHarnesses = map[string]func(){"VerifC19StoreOnceStep": VerifC19StoreOnceStep}
+var VfHarnesses = map[string]func(){"VerifC19StoreOnceStep": VerifC19StoreOnceStep, "VerifC19StoreOnceStep3": VerifC19StoreOnceStep3}
 
 // C19 for the store-once test back end: the same step; a second node record for an id is refused.
+var vfPre = 2
+
+// VerifC19StoreOnceStep3 is the same step from a three-entry pre-state (thorough tier).
+func VerifC19StoreOnceStep3() { vfPre = 3; VerifC19StoreOnceStep() }
+
 func VerifC19StoreOnceStep() {
 	ctx := context.Background()
 	st, err := New(ctx)
@@ -19,5 +24,5 @@ func VerifC19StoreOnceStep() {
 	if err != nil {
 		return
 	}
-	vfs.MapStep(ctx, st, true)
+	vfs.MapStep(ctx, st, true, vfPre)
 }
